@@ -38,6 +38,9 @@ def run(tier):
         chk.sample(ac.pretty(ev))
     # the index itself lives in sandbox memory and changes between reads
     nf, cf = fc.judge(chk, wd, "c17", "C17", ("wasm32", "ilp64", "lp16"))
+    # the same refusals in the library's DEFAULT failure configuration (no exceptions, no custom handler): the process ends
+    import abortcommon
+    abortcommon.judge(chk, wd, "C17")
     chk.count(evaluations=len(events) + nf, distinct=len(combos) + len(cf), traces=1)
     chk.cov["exhaustive"] = True
     chk.cov["exhaustive_scope"] = "every 8-bit index and (per tier) every 16-bit index for lengths {1,2,3,5,8,16}(+{4,7,9,15}) x " \
